@@ -565,7 +565,11 @@ func Verif_C05_adversarial() {
 	c := verifCase(verifPDests)
 	name := verifPDestName[c]
 	k := verifChoose("doc", verifPDocKinds)
-	d := verifPDoc(k, verifParam("digits"), verifParam("edigits"))
+	digits := verifParam("digits")
+	if (c == 10 || c == 11) && digits > verifParam("fdigits") {
+		digits = verifParam("fdigits") // float fields: digit arithmetic mixed with IEEE conversion is slow to decide
+	}
+	d := verifPDoc(k, digits, verifParam("edigits"))
 	verifTrace("destination " + name + " <- document " + verifPDocName[k])
 	verifPTopNum = d.text
 	composite := (c >= 16 && c <= 19) || c >= 26
